@@ -65,7 +65,7 @@ def run(out, rng, tier, args):
         if o["method"] == "full":
             for side, views in (("library", iv), ("model", mv)):
                 v = views.get(fc.cid)
-                wants = (cc.expected_candidates(v, fc) if side == "library" else cc.model_candidates(v, fc)) if v else None
+                wants = (cc.expected_candidates(v, fc, exact=(o["par"] == 1)) if side == "library" else cc.model_candidates(v, fc)) if v else None
                 if wants is None:
                     out.corr_breaks.append((fc.cid, "%s produced no result for a file the binary solved" % side, replay))
                     continue
